@@ -219,6 +219,11 @@ class Program(object):
             if isinstance(value, Command):
                 # Arguments built through the API may hold the referenced command itself
                 return str(value.result_name)
+            if isinstance(value, (list, tuple)):
+                # Lists given through the API are plain Python lists: write them item by item
+                return "[{}]".format(
+                    ", ".join(serialize_value(x, argument, command) for x in value)
+                )
             if isinstance(param, ResultParameter) or (
                 isinstance(param, ListParameter)
                 and isinstance(param.value_type, ResultParameter)
